@@ -189,25 +189,22 @@ func absOfJSON(text string) (map[string]string, bool) {
 		v := n.elems[i]
 		switch k {
 		case `"a"`, `"b"`:
-			if v.kind != 's' {
-				return nil, false
-			}
-			out[strings.Trim(k, `"`)] = v.raw
+			out[strings.Trim(k, `"`)] = leafTok(v)
 		case `"n"`:
 			if v.kind != 'o' {
 				return nil, false
 			}
 			for j, kk := range v.keys {
-				if v.elems[j].kind != 's' || (kk != `"x"` && kk != `"xy"`) {
+				if kk != `"x"` && kk != `"xy"` {
 					return nil, false
 				}
-				out["n."+strings.Trim(kk, `"`)] = v.elems[j].raw
+				out["n."+strings.Trim(kk, `"`)] = leafTok(v.elems[j])
 			}
 		case `"l"`:
-			if v.kind != 'a' || len(v.elems) != 2 || v.elems[0].kind != 's' || v.elems[1].kind != 's' {
+			if v.kind != 'a' || len(v.elems) != 2 {
 				return nil, false
 			}
-			out["l.0"], out["l.1"] = v.elems[0].raw, v.elems[1].raw
+			out["l.0"], out["l.1"] = leafTok(v.elems[0]), leafTok(v.elems[1])
 		default:
 			return nil, false
 		}
@@ -226,6 +223,16 @@ func jsonQuote(s string) string {
 	enc.SetEscapeHTML(false)
 	enc.Encode(s)
 	return strings.TrimSuffix(b.String(), "\n")
+}
+
+// leafTok: a leaf is a scalar (raw token) or a structured placeholder (its compact text)
+func leafTok(n *jnode) string {
+	if n.kind == 's' {
+		return n.raw
+	}
+	var b strings.Builder
+	n.canon(false, &b)
+	return b.String()
 }
 
 var yamlNum = regexp.MustCompile(`^-?\d+(\.\d+)?$`)
@@ -253,13 +260,33 @@ func absOfYAML(text string) (map[string]string, bool) {
 	out := map[string]string{"b": "absent"}
 	sec := ""
 	li := 0
+	pending := "" // a key whose value is a nested mapping on the following line(s)
+	pendInd := 0
 	for _, line := range strings.Split(text, "\n") {
 		if strings.TrimSpace(line) == "" {
 			continue
 		}
 		ind := len(line) - len(strings.TrimLeft(line, " "))
 		t := strings.TrimSpace(line)
+		if pending != "" {
+			if ind > pendInd && t == "k: v" {
+				out[pending] = `{"k":"v"}`
+				pending = ""
+				continue
+			}
+			return nil, false
+		}
 		switch {
+		case ind == 0 && (t == "a:" || t == "b:"):
+			pending, pendInd, sec = t[:1], ind, ""
+		case ind > 0 && sec == "n" && (t == "x:" || t == "xy:"):
+			pending, pendInd = "n."+strings.TrimSuffix(t, ":"), ind
+		case sec == "l" && t == "- k: v":
+			if li > 1 {
+				return nil, false
+			}
+			out[fmt.Sprintf("l.%d", li)] = `{"k":"v"}`
+			li++
 		case ind == 0 && (t == "n:" || t == "l:"):
 			sec = t[:1]
 		case ind == 0 && (strings.HasPrefix(t, "a: ") || strings.HasPrefix(t, "b: ")):
